@@ -134,10 +134,10 @@ private theorem validate_cases {kind : Kind} {version reason : Bytes} {fs : List
           · omega
           · exact hk.2 h2
 
-theorem getJoined_single {fs : List Field} {n v : Bytes} (h : getAll fs n = [v]) : getJoined fs n = some v := by
+private theorem getJoined_single {fs : List Field} {n v : Bytes} (h : getAll fs n = [v]) : getJoined fs n = some v := by
   simp [getJoined, h, joinWith]
 
-theorem getJoined_none {fs : List Field} {n : Bytes} (h : getAll fs n = []) : getJoined fs n = none := by
+private theorem getJoined_none {fs : List Field} {n : Bytes} (h : getAll fs n = []) : getJoined fs n = none := by
   simp [getJoined, h]
 
 private theorem parseTE_nonempty {t w : Bytes} {cls : TE} (h : parseTE t = some (cls, w)) : t ≠ [] := by
@@ -170,6 +170,59 @@ private theorem te_eval_other : ∀ w ∈ Gen.C01.teOther,
     (unfold Ref.teErrorC; rw [if_neg (by decide), if_neg (by decide), if_neg (by decide)])
 
 private theorem noBody_request (m : Bytes) : Ref.noBody .request m = false := rfl
+
+private theorem proxy_nobody {st : Nat} {m : Bytes} (fs : List Field)
+    (hnb : Ref.noBody (.response st) m = true) : proxySize (.response st) m fs = some (.len 0) := by
+  simp only [Ref.noBody, Bool.or_eq_true, Bool.and_eq_true, decide_eq_true_eq, noBodyStatus] at hnb
+  simp only [proxySize, responseBodySize]
+  rcases hnb with (h | h) | h
+  · simp [h]
+  · split
+    · rfl
+    · split
+      · rfl
+      · split
+        · rfl
+        · rename_i h1 h2 h3
+          exfalso
+          rcases h with (h | h) | h
+          · exact h2 (by simpa using h)
+          · exact h3 (Or.inl (by simpa using h))
+          · exact h3 (Or.inr (by simpa using h))
+  · split
+    · rfl
+    · split
+      · rfl
+      · split
+        · rfl
+        · simp [h.1.2, h.2, h.1.1]
+
+private theorem proxy_body {st : Nat} {m : Bytes} (fs : List Field)
+    (hnb' : Ref.noBody (.response st) m = false) : proxySize (.response st) m fs = sizeFromHeaders true fs := by
+  simp only [Ref.noBody, noBodyStatus, Bool.or_eq_false_iff, Bool.and_eq_false_iff, decide_eq_false_iff_not] at hnb'
+  obtain ⟨⟨h1, h2⟩, h3⟩ := hnb'
+  simp only [proxySize, responseBodySize]
+  rw [if_neg h1]
+  have h2a : ¬(100 ≤ st ∧ st ≤ 199) := by
+    intro hh; have := h2.1.1; simp [hh.1, hh.2] at this
+  have h2b : ¬(st = 204 ∨ st = 304) := by
+    intro hh; rcases hh with hh | hh
+    · exact h2.1.2 hh
+    · exact h2.2 hh
+  rw [if_neg h2a, if_neg h2b]
+  split
+  · rename_i hh
+    exfalso
+    rcases h3 with (h3 | h3) | h3
+    · exact h3 hh.2.2
+    · omega
+    · omega
+  · rfl
+
+private theorem getAll_mem {fs : List Field} {n c : Bytes} (h : c ∈ getAll fs n) : ∃ f ∈ fs, f.2 = c := by
+  simp only [getAll, List.mem_map, List.mem_filter] at h
+  obtain ⟨f, ⟨hf, _⟩, rfl⟩ := h
+  exact ⟨f, hf, rfl⟩
 
 /-- **Framing agreement** (requests and responses): for every field list that `validate_headers` accepts, the strict
     reference reader does not find the framing ambiguous, and it delimits the body exactly as
@@ -222,52 +275,10 @@ theorem framing_agrees (kind : Kind) (version reason reqMethod : Bytes) (fs : Li
       simp only [hte_none]
       by_cases hnb : Ref.noBody (.response st) reqMethod = true
       · -- HEAD / 304 / CONNECT-2xx: both sides say "no body"
-        have hp : proxySize (.response st) reqMethod fs = some (.len 0) := by
-          simp only [Ref.noBody, Bool.or_eq_true, Bool.and_eq_true, decide_eq_true_eq, noBodyStatus] at hnb
-          simp only [proxySize, responseBodySize]
-          rcases hnb with (h | h) | h
-          · simp [h]
-          · split
-            · rfl
-            · split
-              · rfl
-              · split
-                · rfl
-                · rename_i h1 h2 h3
-                  exfalso
-                  rcases h with (h | h) | h
-                  · exact h2 (by simpa using h)
-                  · exact h3 (Or.inl (by simpa using h))
-                  · exact h3 (Or.inr (by simpa using h))
-          · split
-            · rfl
-            · split
-              · rfl
-              · split
-                · rfl
-                · simp [h.1.2, h.2, h.1.1]
+        have hp := proxy_nobody fs hnb
         exact ⟨.len 0, .none, hp, by simp [hnb], rfl⟩
       · have hnb' : Ref.noBody (.response st) reqMethod = false := by simpa using hnb
-        have hshort : proxySize (.response st) reqMethod fs = sizeFromHeaders true fs := by
-          simp only [Ref.noBody, noBodyStatus, Bool.or_eq_false_iff, Bool.and_eq_false_iff, decide_eq_false_iff_not] at hnb'
-          obtain ⟨⟨h1, h2⟩, h3⟩ := hnb'
-          simp only [proxySize, responseBodySize]
-          rw [if_neg h1]
-          have h2a : ¬(100 ≤ st ∧ st ≤ 199) := by
-            intro hh; have := h2.1.1; simp [hh.1, hh.2] at this
-          have h2b : ¬(st = 204 ∨ st = 304) := by
-            intro hh; rcases hh with hh | hh
-            · exact h2.1.2 hh
-            · exact h2.2 hh
-          rw [if_neg h2a, if_neg h2b]
-          split
-          · rename_i hh
-            exfalso
-            rcases h3 with (h3 | h3) | h3
-            · exact h3 hh.2.2
-            · omega
-            · omega
-          · rfl
+        have hshort := proxy_body fs hnb'
         rcases hmem with ⟨hc, hm⟩ | ⟨hc, hm⟩
         · subst hc
           refine ⟨.chunked, .chunked, ?_, ?_, trivial⟩
@@ -278,7 +289,123 @@ theorem framing_agrees (kind : Kind) (version reason reqMethod : Bytes) (fs : Li
           · rw [hshort]; simp [sizeFromHeaders, hj, htne, hpt]
           · simp [hnb', (te_eval_other w hm).1]
   · -- Content-Length only
-    sorry
-  · sorry
+    have hcv : valueOk c = true := by
+      obtain ⟨f, hf, rfl⟩ := getAll_mem (n := sCL) (by rw [hcl]; simp : c ∈ getAll fs sCL)
+      exact (hall f hf).2
+    have hpc' : clDigits c = some n := by
+      have := dropFinalLF_id (valueOk_last hcv)
+      simpa [parseCL, this] using hpc
+    obtain ⟨hne, hd, hn⟩ := clDigits_spec hpc'
+    obtain ⟨hitems, hdig⟩ := cl_items_single hne hd
+    have hcle : Ref.clError [c] = none := by
+      simp [Ref.clError, hitems, hdig]
+    have hfr : Ref.framing fs version kind reqMethod =
+        if Ref.noBody kind reqMethod then .ok .none else .ok (.cl n) := by
+      unfold Ref.framing Ref.teError
+      simp [hte, hcl, hcle, hitems, hn]
+    have hsz : ∀ b, sizeFromHeaders b fs = some (.len n) := by
+      intro b
+      simp [sizeFromHeaders, getJoined_none hte, getJoined_single hcl, hne, hpc]
+    rw [hfr]
+    cases kind with
+    | request => exact ⟨.len n, .cl n, by simp [proxySize, hsz], by simp [noBody_request], rfl⟩
+    | response st =>
+      by_cases hnb : Ref.noBody (.response st) reqMethod = true
+      · exact ⟨.len 0, .none, proxy_nobody fs hnb, by simp [hnb], rfl⟩
+      · have hnb' : Ref.noBody (.response st) reqMethod = false := by simpa using hnb
+        exact ⟨.len n, .cl n, by rw [proxy_body fs hnb', hsz], by simp [hnb'], rfl⟩
+  · -- neither
+    clear hv hall
+    have hfr : Ref.framing fs version kind reqMethod =
+        if Ref.noBody kind reqMethod then .ok .none
+        else match kind with | .request => .ok .none | .response _ => .ok .eof := by
+      have hcl0 : Ref.clError [] = none := by decide
+      unfold Ref.framing Ref.teError
+      simp [hte, hcl, hcl0, Ref.clItems]
+      cases kind <;> rfl
+    rw [hfr]
+    cases kind with
+    | request =>
+      exact ⟨.len 0, .none, by simp [proxySize, sizeFromHeaders, getJoined_none hte, getJoined_none hcl], by simp [noBody_request], rfl⟩
+    | response st =>
+      by_cases hnb : Ref.noBody (.response st) reqMethod = true
+      · exact ⟨.len 0, .none, proxy_nobody fs hnb, by simp [hnb], rfl⟩
+      · have hnb' : Ref.noBody (.response st) reqMethod = false := by simpa using hnb
+        refine ⟨.untilEof, .eof, ?_, by simp [hnb'], trivial⟩
+        rw [proxy_body fs hnb']
+        simp [sizeFromHeaders, getJoined_none hte, getJoined_none hcl]
+
+/-- **ambiguous_rejected** (requests and responses): if the reference reader finds the framing of a field list ambiguous
+    (Content-Length with Transfer-Encoding, differing / malformed Content-Length, unknown or misplaced transfer coding,
+    non-chunked request coding, Transfer-Encoding on HTTP/1.0 or on 1xx/204), `validate_headers` rejects the message. -/
+theorem ambiguous_rejected (kind : Kind) (version reason reqMethod : Bytes) (fs : List Field) (cls : Nat)
+    (h : Ref.framing fs version kind reqMethod = .error (.ambiguous cls)) :
+    validateHeaders kind version reason fs = false := by
+  cases hv : validateHeaders kind version reason fs with
+  | false => rfl
+  | true =>
+    obtain ⟨_, fr, _, hfr, _⟩ := framing_agrees kind version reason reqMethod fs hv
+    rw [hfr] at h; cases h
+
+/-- invalid field names are rejected as well (the remaining ambiguity class of the reference reader) -/
+theorem bad_field_name_rejected (kind : Kind) (version reason : Bytes) (fs : List Field) (f : Field)
+    (hf : f ∈ fs) (hn : nameOk f.1 = false) : validateHeaders kind version reason fs = false := by
+  cases hv : validateHeaders kind version reason fs with
+  | false => rfl
+  | true =>
+    have := (validate_cases hv).1 f hf
+    rw [hn] at this; simp at this
+
+/-! non-vacuity: the hypotheses are satisfiable, and the functions are not constant -/
+example : validateHeaders .request sHttp11 [] [(sTE, sChunked)] = true := by decide
+example : validateHeaders (.response 200) sHttp11 [79, 75] [(sCL, [52, 50])] = true := by decide
+example : validateHeaders .request sHttp11 [] [(sTE, sChunked), (sCL, [53])] = false := by decide
+example : Ref.framing [(sTE, sChunked), (sCL, [53])] sHttp11 .request [] = .error (.ambiguous Ref.cClTe) := by rfl
+example : Ref.framing [(sCL, [53]), (sCL, [54])] sHttp11 .request [] = .error (.ambiguous Ref.cClConflict) := by rfl
+example : Ref.framing [(sTE, [103, 122, 105, 112])] sHttp11 .request [] = .error (.ambiguous Ref.cTeReqNotChunked) := by rfl
+
+
+/-! ### Round trip of forwarded messages — full statements (NOT proved in Lean, see level_note)
+
+The statements below are what DESIGN §5 C01 asks for.  They are kept as definitions so that the obligation stays visible;
+they are not discharged (they need the inverse of `hexDigits`/`assembleFields` against `Ref.headLines`/`Ref.chunkedBody`).
+On the real code they are checked by the direct oracle of harness/c01.py (independent Python reference parser on the bytes
+written by the real layer) and, for the model, by the `fwdreq`/`fwdresp` + `refreqs`/`refresp` correspondence. -/
+
+/-- a body is consistent with the request's headers (what `set_content` maintains): chunked → any body; otherwise the
+    Content-Length value is the body length, and no Content-Length means no body -/
+def BodyConsistent (r : ReqHead) (body : Bytes) : Prop :=
+  match requestBodySize r with
+  | some .chunked => True
+  | some (.len n) => body.length = n
+  | _ => False
+
+def RequestLineOk (r : ReqHead) : Prop :=
+  Ref.noWs r.method = true ∧ Ref.noWs (requestTarget r) = true ∧ versionOk r.version = true ∧
+  (∀ f ∈ r.fields, (10 : UInt8) ∉ f.1)
+
+/-- forward_request_roundtrip / edit_stable: for every request the proxy would forward (validate_headers true — whether the
+    fields come from the wire or from an addon edit) and every consistent body, the reference reader reads the written
+    bytes back as exactly this request, followed by whatever comes next -/
+def ForwardRequestRoundtrip : Prop :=
+  ∀ (r : ReqHead) (body rest : Bytes),
+    validateHeaders .request r.version [] r.fields = true → RequestLineOk r → BodyConsistent r body →
+    ∃ fr, Ref.parseRequest (forwardRequest r body ++ rest) =
+      .ok (⟨r.method, requestTarget r, r.version, r.fields.map (fun f => (f.1, Ref.unfold f.2)), body, fr⟩, rest)
+
+/-- forward_stream_roundtrip: the pipelined version (induction over the list of messages) -/
+def ForwardStreamRoundtrip : Prop :=
+  ∀ (ms : List (ReqHead × Bytes)),
+    (∀ m ∈ ms, validateHeaders .request m.1.version [] m.1.fields = true ∧ RequestLineOk m.1 ∧ BodyConsistent m.1 m.2) →
+    let wire := (ms.map fun m => forwardRequest m.1 m.2).flatten
+    (Ref.parseRequests (wire.length + 1) wire).2 = none ∧
+    (Ref.parseRequests (wire.length + 1) wire).1.map (fun m => (m.a, m.b, m.body)) =
+      ms.map (fun m => (m.1.method, requestTarget m.1, m.2))
+
+/-- instances (the statement holds on concrete messages, and is not vacuous) -/
+example : Ref.parseRequest (forwardRequest ⟨[71,69,84], [], [], [47], sHttp11, [([72,111,115,116], [104]), (sCL, [51])]⟩ [97,98,99] ++ [88]) =
+    .ok (⟨[71,69,84], [47], sHttp11, [([72,111,115,116], [104]), (sCL, [51])], [97,98,99], .cl 3⟩, [88]) := by rfl
+example : Ref.parseRequest (forwardRequest ⟨[80,85,84], [], [], [47], sHttp11, [(sTE, sChunked), ([88], [97, 13, 10, 32, 98])]⟩ [97,98,99] ++ [88]) =
+    .ok (⟨[80,85,84], [47], sHttp11, [(sTE, sChunked), ([88], [97, 32, 98])], [97,98,99], .chunked⟩, [88]) := by rfl
 
 end MitmVerif.Props.C01
